@@ -41,7 +41,7 @@ ANCHORS = [
                                 'Store.get_processes', 'Store.get_steps', 'Store.get_flow',
                                 'Store.get_topology', 'Store.set_value', 'Store.apply_defaults']),
 ]
-BUDGET = {'quick': 260, 'thorough': 6000}
+BUDGET = {'quick': 600, 'thorough': 6000}
 RULE = ('cases: scenarios of 1-5 probe processes/steps in 1-3 composites (Composite(config) / '
         'Composer.generate at a path / MetaComposer), 0-5 merge operations (other composite or none, '
         'loose parts, path, schema override; one template merged several times), then one '
@@ -60,9 +60,17 @@ ASSUMPTIONS = [
     'the store entry point is exercised on composites holding at least one non-step process (CF-B)',
     'Engine(composite=c, initial_state=x) is not combined with a non-empty c.state (F21)',
 ]
-CASE_TIMEOUT = 20.0
+CASE_TIMEOUT = 30.0
 PARTS = ['processes', 'topology', 'steps', 'flow', 'state']
 RUN_TICKS = 3
+
+try:   # warm the import cache before the runner forks its workers (the first case of a worker
+    # would otherwise pay for importing vivarium inside its watchdog window); failures surface
+    # later, inside run_impl, as observations
+    import vivarium.core.engine  # noqa: F401
+    import vivarium.core.composer  # noqa: F401
+except Exception:  # noqa
+    pass
 
 
 # ------------------------------------------------------------------ encoding (process leaves = pid)
@@ -376,13 +384,27 @@ def py_proc_paths(tree, prefix=()):
     return out
 
 
+def _occupant(parts, path):
+    """pid sitting at `path` in processes or steps of an expected-parts record (None if absent)"""
+    for part in ('processes', 'steps'):
+        node = parts[part]
+        for k in path:
+            node = node.get(k) if isinstance(node, dict) else None
+        if node is not None and not isinstance(node, dict):
+            return json.loads(node)
+    return None
+
+
 def add_overrides(sc, g, rng):
     hist = expected_parts(sc)
     for i, op in enumerate(sc['ops']):
         if rng.random() < 0.3:
             after = hist[i + 1][op['target']]
             cands = [(p, pid) for p, pid in py_proc_paths(after['processes']) + py_proc_paths(after['steps'])
-                     if isinstance(pid, str) and pid not in g.overridden]
+                     if isinstance(pid, str) and pid not in g.overridden
+                     and all(_occupant(hist[j][op['target']], p) == pid for j in range(i + 1, len(hist)))]
+            # (CF-C) the key must keep its occupant: merge re-applies the accumulated `_schema`, and
+            # the same override dictionary applied to two process objects makes them share it
             # a process object sitting at several paths (template merged twice) is named once
             if cands:
                 p, pid = rng.choice(cands)
@@ -1173,7 +1195,8 @@ LEVEL_TEXT = ('Lean 4 theorems, for all composites, paths and merge sequences (u
 LEVEL_NOTE = ('Trusted: Lean kernel; axioms ⊆ {propext, Classical.choice, Quot.sound}; hand-written models of '
               'composer.py / dict_utils.py / the part of store.py and engine.py the entry points use '
               '(flat port schemas), validated by correspondence. Not proved in Lean, checked by the oracle on '
-              'the implementation: the store entry point (get_* inverse to generate — entry_store_partial), '
+              'the implementation: the store entry point (get_* inverse to generate; only the composite and '
+              'loose-parts branches are proved equal), '
               'running at a path = running at the root under the prefix, and equality of the emitted '
               'trajectories of the three entry points.')
 TECHNIQUE = ('Lean 4 proof (heap-region invariant + induction over merge sequences; structural induction over '
